@@ -69,6 +69,20 @@ pub struct InvalidArgumentCountError {
 }
 
 #[derive(Debug, thiserror::Error, miette::Diagnostic, PartialEq, Eq, Clone)]
+#[error("missing field {name} of {case}")]
+#[diagnostic(code(tx3::missing_field))]
+pub struct MissingFieldError {
+    pub name: String,
+    pub case: String,
+
+    #[source_code]
+    src: Option<String>,
+
+    #[label]
+    span: Span,
+}
+
+#[derive(Debug, thiserror::Error, miette::Diagnostic, PartialEq, Eq, Clone)]
 #[error("optional output ({name}) cannot have a datum")]
 #[diagnostic(code(tx3::optional_output_datum))]
 pub struct OptionalOutputError {
@@ -145,6 +159,10 @@ pub enum Error {
     #[error(transparent)]
     #[diagnostic(transparent)]
     InvalidArgumentCount(#[from] InvalidArgumentCountError),
+
+    #[error(transparent)]
+    #[diagnostic(transparent)]
+    MissingField(#[from] MissingFieldError),
 }
 
 impl Error {
@@ -157,6 +175,7 @@ impl Error {
             Self::MetadataInvalidKeyType(x) => &x.span,
             Self::InvalidOptionalOutput(x) => &x.span,
             Self::InvalidArgumentCount(x) => &x.span,
+            Self::MissingField(x) => &x.span,
             _ => &Span::DUMMY,
         }
     }
@@ -627,13 +646,31 @@ impl Analyzable for VariantCaseConstructor {
             scope.track_record_field(field);
         }
 
+        // every declared field has to come from somewhere: written out or taken from the spread
+        let mut missing = AnalyzeReport::default();
+
+        if self.spread.is_none() {
+            for field in case.fields.iter() {
+                if self.find_field_value(&field.name.value).is_none() {
+                    missing = missing
+                        + Error::MissingField(MissingFieldError {
+                            name: field.name.value.clone(),
+                            case: case.name.value.clone(),
+                            src: None,
+                            span: self.span.clone(),
+                        })
+                        .into();
+                }
+            }
+        }
+
         self.scope = Some(Rc::new(scope));
 
         let fields = self.fields.analyze(self.scope.clone());
 
         let spread = self.spread.analyze(self.scope.clone());
 
-        name + fields + spread
+        name + fields + spread + missing
     }
 
     fn is_resolved(&self) -> bool {
